@@ -23,7 +23,7 @@ EXPLANATION = (
     'must raise the supplied IOError on every path. The reference encoder/decoder pair is itself validated by decoding '
     'the six shipped sph2pipe vectors to their reference WAVs.')
 BOUNDS = {
-    'quick': '14 programs: versions 1-2; types S16HL/S16LH/AU1/AU2; 1-2 channels; block sizes 2-4 incl. BLOCKSIZE to a shorter final block; '
+    'quick': '15 programs: versions 1-2; types S16HL/S16LH/AU1/AU2; 1-2 channels; block sizes 2-4 incl. BLOCKSIZE to a shorter final block; '
              'nmean 0/1/2/4; DIFF0-3, QLPC order 1-2 (concrete quantised coefficients), ZERO, BITSHIFT 1-2, QUIT; residual width 0-5 bits '
              'with 0-1 extra unary bit; <= 3 blocks x <= 4 samples per channel (<= 2^8 sign paths per program); every truncation point of 4 programs',
     'thorough': 'same grammar, 30 programs, QLPC order up to 3, up to 10 residuals per program',
@@ -396,6 +396,17 @@ def _res(tag, n, resn, zs=None):
     return [(zs[i], z3.BitVec('u_%s_%d' % (tag, i), resn + 1)) for i in range(n)]
 
 
+def _res_mixed(tag, n, resn, nsym, fill=(3, 1, 2, 5, 4, 6)):
+    """first nsym residual fields symbolic, the rest concrete"""
+    out = []
+    for i in range(n):
+        if i < nsym:
+            out.append((0, z3.BitVec('u_%s_%d' % (tag, i), resn + 1)))
+        else:
+            out.append((0, fill[i % len(fill)] & ((1 << (resn + 1)) - 1)))
+    return out
+
+
 def programs(tier):
     P = []
 
@@ -417,6 +428,7 @@ def programs(tier):
     add('v2 AU1 convert', dict(ftype=R.TYPE_AU1, nmean=0, blocksize=2), lambda: [('diff', 0, 2, _res('a', 2, 2)), ('diff', 1, 1, _res('b', 2, 1)), ('quit',)], itemsize=2)
     add('v2 AU2 raw', dict(ftype=R.TYPE_AU2, nmean=0, blocksize=2), lambda: [('diff', 0, 2, _res('a', 2, 2)), ('bitshift', 1), ('diff', 1, 1, _res('b', 1, 1) + _res('c', 1, 1)), ('quit',)], itemsize=1)
     add('v2 diff3 history across blocks', dict(nmean=0, blocksize=2), lambda: [('diff', 1, 2, _res('a', 2, 2)), ('diff', 3, 1, _res('b', 2, 1)), ('diff', 2, 1, _res('c', 2, 1)), ('quit',)])
+    add('v2 qlpc maxnlpc4 nmean2 history>3', dict(maxnlpc=4, nmean=2, blocksize=4), lambda: [('diff', 0, 3, _res_mixed('a', 4, 3, 2)), ('qlpc', 1, [17, -6], _res_mixed('b', 4, 1, 2)), ('quit',)])
     add('v1 qlpc nmean0', dict(version=1, maxnlpc=2, nmean=0), lambda: [('diff', 1, 2, _res('a', 3, 2)), ('qlpc', 1, [12, 3], _res('b', 3, 1)), ('quit',)])
     if tier == 'thorough':
         add('v2 qlpc3 nmean4', dict(maxnlpc=3, nmean=4, blocksize=3), lambda: [('diff', 2, 2, _res('a', 3, 2)), ('qlpc', 1, [25, -14, 4], _res('b', 3, 1)), ('qlpc', 1, [-7], _res('c', 3, 1)), ('quit',)])
